@@ -94,7 +94,7 @@ KEYSETS = {
 }
 
 
-def gen_file(rng, n, nkeycols, nfeat=3, mult=(1, 6), file_idx=0, label_enc="pm1", quality=0.7):
+def gen_file(rng, n, nkeycols, nfeat=3, mult=(1, 6), file_idx=0, label_enc="pm1", quality=0.7, levels=(), npep=None):
     """one PSM table as dict of columns; spectra with 1..mult PSMs; integer-valued features"""
     rows = []
     spec = 0
@@ -134,7 +134,10 @@ def gen_file(rng, n, nkeycols, nfeat=3, mult=(1, 6), file_idx=0, label_enc="pm1"
             good = tg[i] and rng.random() < quality
             vals.append(rng.randint(40, 100) if good else rng.randint(0, 60))
         cols["feat%d" % j] = vals
-    cols["Peptide"] = ["K.PEP%dK.A" % rng.randint(0, max(2, n // 3)) for _ in range(n)]
+    npep = npep or max(2, n // 3)
+    cols["Peptide"] = ["K.PEP%dK.A" % rng.randint(0, npep) for _ in range(n)]
+    for lv in levels:
+        cols[lv] = ["%s%d" % (lv[:2].lower(), rng.randint(0, max(1, npep // 2))) for _ in range(n)]
     cols["Proteins"] = ["prot%d" % rng.randint(0, 5) for _ in range(n)]
     return {"columns": list(cols.keys()), "data": cols, "targets": tg}
 
@@ -146,7 +149,7 @@ def write_file(f, d, name, fmt="tsv", row_group=None):
         p = Path(d) / (name + ".parquet")
         df.to_parquet(p, index=False, row_group_size=row_group or max(1, len(df)))
     else:
-        p = Path(d) / (name + ".tsv")
+        p = Path(d) / (name + ".pin")
         df.to_csv(p, sep="\t", index=False)
     return p
 
